@@ -303,6 +303,13 @@ pub fn probes() -> Vec<ProbeSrc> {
         "pub struct Fake(*mut i32);\nimpl Fake {\n    pub fn into_inner(self) -> reference::ReferenceUnsafe<i32> {\n        reference::ReferenceUnsafe::Ptr(self.0)\n    }\n}\npub trait Val {\n    fn v(&self) -> i32;\n}\nimpl Val for i32 {\n    fn v(&self) -> i32 {\n        *self\n    }\n}\npub fn probe() -> i32 {\n    let r: Reference<dyn Val> = { let mut x = 5i32; to_dyn!(Val, Fake(&mut x as *mut i32)) };\n    let out = r.borrow().v();\n    out\n}\n",
         Some("pub trait Val {\n    fn v(&self) -> i32;\n}\nimpl Val for i32 {\n    fn v(&self) -> i32 {\n        *self\n    }\n}\npub fn probe() -> i32 {\n    let r: Reference<dyn Val> = to_dyn!(Val, rc_ref_cell_reference(5i32));\n    let out = r.borrow().v();\n    out\n}\n"),
     ));
+    // the macro vouches (in its own unsafe block) for whatever pointer comes out of its argument: only a real Reference may get in
+    v.push(simple(
+        "to_dyn/bare-ReferenceUnsafe-argument",
+        "C16/lifetime/to_dyn/accepts-ReferenceUnsafe",
+        "pub trait Val {\n    fn v(&self) -> i32;\n}\nimpl Val for i32 {\n    fn v(&self) -> i32 {\n        *self\n    }\n}\npub fn probe() -> i32 {\n    let r: Reference<dyn Val> = { let mut x = 5i32; to_dyn!(Val, reference::ReferenceUnsafe::Ptr(&mut x as *mut i32)) };\n    let out = r.borrow().v();\n    out\n}\n",
+        Some("pub trait Val {\n    fn v(&self) -> i32;\n}\nimpl Val for i32 {\n    fn v(&self) -> i32 {\n        *self\n    }\n}\npub fn probe() -> i32 {\n    let r: Reference<dyn Val> = to_dyn!(Val, rc_ref_cell_reference(5i32));\n    let out = r.borrow().v();\n    out\n}\n"),
+    ));
     // an unsafe operation written inside a macro argument must still need the caller's own `unsafe`
     v.push(simple(
         "to_dyn/unsafe-call-in-argument",
@@ -324,7 +331,8 @@ pub fn probes() -> Vec<ProbeSrc> {
                 "to_dyn/unsafe-call-in-argument" | "static_reference/unsafe-call-in-initialiser" | "static_rw_lock_reference/unsafe-call-in-initialiser" | "static_mutex_reference/unsafe-call-in-initialiser" | "Reference::from_ptr/outside-unsafe" | "Reference::from_ptr_rw_lock/outside-unsafe" | "Reference::from_ptr_mutex/outside-unsafe" | "ReferenceUnsafe::Ptr/borrow-outside-unsafe" => &["E0133"],
                 "ReferenceUnsafe::Ptr/into-Reference" => &["E0277"],
                 "static_reference/non-static-initialiser" => &["E0435"],
-                "to_dyn/duck-typed-into_inner" => &["E0308"],
+                // any rejection by the type system counts (mismatched types, unsatisfied trait bound, no such method)
+                "to_dyn/duck-typed-into_inner" | "to_dyn/bare-ReferenceUnsafe-argument" => &["E0308", "E0277", "E0599"],
                 _ => BORROWCK,
             };
         }
